@@ -47,6 +47,143 @@ theorem podRunning_live (s : State) (q : Pod) (uid : Uid) (h : Inv s) (hq : Tbl.
 
 theorem reserve_then (s : State) (k : Key) : Chg (hasKey k) uidZero s (reserve s k k {}).1 := reserve_chgZ s k k
 
+/-! ### the whole-key check of resync and Release -/
+
+theorem keyOwnedLoop_quiet (F : Facts) (k : Key) (uid : Nat) : ∀ (l : List IP) (s : State),
+    QuietStep s (keyOwnedLoop F k uid l s).1 ∧ (keyOwnedLoop F k uid l s).1.plog = s.plog := by
+  intro l
+  induction l with
+  | nil => intro s; exact ⟨QuietStep.refl s, rfl⟩
+  | cons ip t ih =>
+    intro s
+    unfold keyOwnedLoop
+    split
+    · exact ih s
+    · rename_i r _
+      split
+      · exact ih s
+      · split
+        · exact ih s
+        · have pq := podRunning_quiet F s k.pod k.ns r.uid
+          split
+          · exact pq
+          · have r2 := ih (podRunning F s k.pod k.ns r.uid).1
+            exact ⟨pq.1.trans r2.1, r2.2.trans pq.2⟩
+
+theorem keyOwned_quiet (F : Facts) (s : State) (k : Key) (uid : Nat) :
+    QuietStep s (keyOwnedByRunningPod F s k uid).1 ∧ (keyOwnedByRunningPod F s k uid).1.plog = s.plog := by
+  unfold keyOwnedByRunningPod
+  split
+  · exact keyOwnedLoop_quiet F k uid _ s
+  · exact ⟨QuietStep.refl s, rfl⟩
+
+/-- a record of the key that carries the uid of a live pod (other than the examined uid) makes the check answer true -/
+theorem keyOwnedLoop_live (q : Pod) (uid : Nat) (hne : uid ≠ q.uid) : ∀ (l : List IP) (s : State), Inv s →
+    Tbl.get s.pods q.id = some q → q.finished = false →
+    (∃ ip, ip ∈ l ∧ ∃ r, Tbl.get s.alloc ip = some r ∧ r.key = keyOf q ∧ r.uid = q.uid) →
+    (keyOwnedLoop Facts.good (keyOf q) uid l s).2 = true := by
+  intro l
+  induction l with
+  | nil => intro s _ _ _ hw; obtain ⟨ip, hm, _⟩ := hw; cases hm
+  | cons x t ih =>
+    intro s h hq hnf hw
+    obtain ⟨ip, hm, r, hr, hk, hu⟩ := hw
+    have tail_of_ne : x ≠ ip → ∃ ip, ip ∈ t ∧ ∃ r, Tbl.get s.alloc ip = some r ∧ r.key = keyOf q ∧ r.uid = q.uid := by
+      intro hx
+      rcases List.mem_cons.mp hm with e | e
+      · exact absurd e.symm hx
+      · exact ⟨ip, e, r, hr, hk, hu⟩
+    unfold keyOwnedLoop
+    split
+    · rename_i hx
+      exact ih s h hq hnf (tail_of_ne (by intro e; subst e; rw [hr] at hx; cases hx))
+    · rename_i rx hx
+      split
+      · rename_i hkx
+        exact ih s h hq hnf (tail_of_ne (by intro e; subst e; rw [hr] at hx; cases hx; exact hkx hk))
+      · split
+        · rename_i hux
+          exact ih s h hq hnf (tail_of_ne (by intro e; subst e; rw [hr] at hx; cases hx; exact hne (hux.symm.trans hu)))
+        · split
+          · rfl
+          · rename_i hrun
+            have pq := (podRunning_quiet Facts.good s (keyOf q).pod (keyOf q).ns rx.uid).1
+            have hx' : x ≠ ip := by
+              intro e; subst e
+              rw [hr] at hx; cases hx
+              exact hrun (podRunning_live s q r.uid h hq hnf (Or.inr hu))
+            obtain ⟨ip', hm', r', hr', hk', hu'⟩ := tail_of_ne hx'
+            exact ih _ (h.quiet pq) (by rw [pq.frame.pods]; exact hq) hnf ⟨ip', hm', r', by rw [pq.alloc]; exact hr', hk', hu'⟩
+
+/-- resync / Release found the examined record's pod not running and the key not owned by a running pod: then no
+    live bound pod has this key -/
+theorem not_liveKey_of_checks (s : State) (h : Inv s) (k : Key) (ip : IP) (uid : Nat)
+    (hrec : (∃ r, Tbl.get s.alloc ip = some r ∧ r.key = k ∧ r.uid = uid) ∨ (Tbl.get s.alloc ip = none ∧ k = Key.empty))
+    (hrun : ¬ (podRunning Facts.good s k.pod k.ns uid).2 = true)
+    (hko : ¬ (keyOwnedByRunningPod Facts.good (podRunning Facts.good s k.pod k.ns uid).1 k uid).2 = true) :
+    ¬ LiveKey s.pods k := by
+  rintro ⟨q, hq, hkq⟩
+  have wf := (h.podsWF _ q hq.1).2.2.2
+  rcases hrec with ⟨r, hr, hrk, hru⟩ | ⟨_, hke⟩
+  · by_cases hu : uid = 0 ∨ uid = q.uid
+    · apply hrun
+      have := podRunning_live s q uid h hq.1 hq.2.1 hu
+      rw [hkq] at this; exact this
+    · apply hko
+      have pq := (podRunning_quiet Facts.good s k.pod k.ns uid).1
+      obtain ⟨hd, hmem⟩ := List.exists_mem_of_ne_nil _ hq.2.2
+      obtain ⟨rq, g1, g2, g3⟩ := h.safe.own q hq hd hmem
+      unfold keyOwnedByRunningPod
+      simp only [good_wholeKeyCheck, if_true]
+      rw [← hkq]
+      apply keyOwnedLoop_live q uid (fun e => hu (Or.inr e)) _ _ (h.quiet (by rw [← hkq] at pq; exact pq))
+        (by rw [hkq, pq.frame.pods]; exact hq.1) hq.2.1
+      refine ⟨hd.ip, ?_, rq, by rw [hkq, pq.alloc]; exact g1, g2, g3⟩
+      apply mem_ipsOfKey_of_get (r := rq)
+      · rw [hkq, pq.alloc]; exact g1
+      · exact g2
+  · have := (keyOf_fields q wf).2
+    rw [hkq, hke] at this
+    exact absurd this.symm wf.2.1
+
+/-- the acting part of the resync closure, for a key no live bound pod has -/
+theorem resyncAct_spec (s1 : State) (ip : IP) (k : Key) (r : Rec) (h1 : Inv s1) (hnl : ¬ LiveKey s1.pods k)
+    (hip : NoLive s1.pods ip) :
+    Inv (resyncAct s1 ip k r) ∧ Frame s1 (resyncAct s1 ip k r) ∧ UnassignsWithin s1 (resyncAct s1 ip k r) (NoLive s1.pods) := by
+  have tail : ∀ s2 : State, Inv s2 → ¬ LiveKey s2.pods k →
+      Inv (if k.isDp = true then (unbindDp s2 k r.policy).1 else (unbindOther s2 k r.policy).1) ∧
+      Frame s2 (if k.isDp = true then (unbindDp s2 k r.policy).1 else (unbindOther s2 k r.policy).1) ∧
+      (if k.isDp = true then (unbindDp s2 k r.policy).1 else (unbindOther s2 k r.policy).1).plog = s2.plog := by
+    intro s2 h2 hn2
+    split
+    · have c := unbindDp_chg s2 k r.policy
+      exact ⟨h2.step_of_chg_key _ hn2 (unbindDp_coherent _ _ _ h2.coh) c, c.frame, unbindDp_plog _ _ _⟩
+    · have c := unbindOther_chg s2 k r.policy
+      exact ⟨h2.step_of_chg_key _ hn2 (unbindOther_coherent _ _ _ h2.coh) c, c.frame, unbindOther_plog _ _ _⟩
+  unfold resyncAct
+  split
+  · have uq := provUnassign_quiet s1 r.node ip
+    have hu : Inv (provUnassign s1 r.node ip).1 := h1.quiet uq
+    have lg1 : UnassignsWithin s1 (provUnassign s1 r.node ip).1 (NoLive s1.pods) :=
+      (provUnassign_log s1 r.node ip).mono (fun j hj => by subst hj; exact hip)
+    split
+    · exact ⟨hu, uq.frame, lg1⟩
+    · have hnl2 : ¬ LiveKey (provUnassign s1 r.node ip).1.pods k := by rw [uq.frame.pods]; exact hnl
+      have c := reserve_then (provUnassign s1 r.node ip).1 k
+      have h3 := hu.step_of_chg_key _ hnl2 (reserve_coherent _ _ _ _ hu.coh) c
+      have hnl3 : ¬ LiveKey (reserve (provUnassign s1 r.node ip).1 k k {}).1.pods k := by rw [c.frame.pods]; exact hnl2
+      have t := tail _ h3 hnl3
+      have lg2 := lg1.trans (UnassignsWithin.of_plog_eq (NoLive s1.pods) (reserve_plog (provUnassign s1 r.node ip).1 k k {}))
+      split
+      · rename_i hdp
+        simp only [hdp, if_true] at t
+        exact ⟨t.1, (uq.frame.trans c.frame).trans t.2.1, lg2.trans (UnassignsWithin.of_plog_eq _ t.2.2)⟩
+      · rename_i hdp
+        simp only [hdp, Bool.false_eq_true, if_false] at t
+        exact ⟨t.1, (uq.frame.trans c.frame).trans t.2.1, lg2.trans (UnassignsWithin.of_plog_eq _ t.2.2)⟩
+  · have t := tail _ h1 hnl
+    exact ⟨t.1, t.2.1, UnassignsWithin.of_plog_eq _ t.2.2⟩
+
 /-- one checklist entry of the resync pass -/
 theorem resyncOne_spec (s : State) (ip : IP) (r0 : Rec) (h : Inv s) :
     Inv (resyncOne Facts.good s ip r0) ∧ Frame s (resyncOne Facts.good s ip r0) ∧
@@ -64,54 +201,22 @@ theorem resyncOne_spec (s : State) (ip : IP) (r0 : Rec) (h : Inv s) :
       have hpr : Inv (podRunning Facts.good s r0.key.pod r0.key.ns r.uid).1 := h.quiet pq.1
       have lg0 : UnassignsWithin s (podRunning Facts.good s r0.key.pod r0.key.ns r.uid).1 (NoLive s.pods) :=
         UnassignsWithin.of_plog_eq _ pq.2
-      try dsimp only
       split
       · exact ⟨hpr, pq.1.frame, lg0⟩
       · rename_i hrun
-        -- not running: no live bound pod has this key
-        have hnl : ¬ LiveKey s.pods r0.key := by
-          rintro ⟨q, hq, hkq⟩
-          apply hrun
-          have hu := h.safe.keyUids q hq ip r hr (by rw [hk', hkq])
-          have := podRunning_live s q r.uid h hq.1 hq.2.1 hu
-          rw [hkq] at this; exact this
-        have hnl1 : ¬ LiveKey (podRunning Facts.good s r0.key.pod r0.key.ns r.uid).1.pods r0.key := by
-          rw [pq.1.frame.pods]; exact hnl
-        have hr1 : Tbl.get (podRunning Facts.good s r0.key.pod r0.key.ns r.uid).1.alloc ip = some r := by
-          rw [pq.1.alloc]; exact hr
-        have tail : ∀ s2 : State, Inv s2 → ¬ LiveKey s2.pods r0.key →
-            Inv (if r0.key.isDp = true then (unbindDp s2 r0.key r.policy).1 else (unbindOther s2 r0.key r.policy).1) ∧
-            Frame s2 (if r0.key.isDp = true then (unbindDp s2 r0.key r.policy).1 else (unbindOther s2 r0.key r.policy).1) ∧
-            (if r0.key.isDp = true then (unbindDp s2 r0.key r.policy).1 else (unbindOther s2 r0.key r.policy).1).plog = s2.plog := by
-          intro s2 h2 hn2
-          split
-          · have c := unbindDp_chg s2 r0.key r.policy
-            exact ⟨h2.step_of_chg_key _ hn2 (unbindDp_coherent _ _ _ h2.coh) c, c.frame, unbindDp_plog _ _ _⟩
-          · have c := unbindOther_chg s2 r0.key r.policy
-            exact ⟨h2.step_of_chg_key _ hn2 (unbindOther_coherent _ _ _ h2.coh) c, c.frame, unbindOther_plog _ _ _⟩
+        have kq := keyOwned_quiet Facts.good (podRunning Facts.good s r0.key.pod r0.key.ns r.uid).1 r0.key r.uid
+        have hko := hpr.quiet kq.1
+        have lg1 := lg0.trans (UnassignsWithin.of_plog_eq (NoLive s.pods) kq.2)
         split
-        · -- provider: unassign, then clear node and uid
-          have uq := provUnassign_quiet (podRunning Facts.good s r0.key.pod r0.key.ns r.uid).1 r.node ip
-          have hu : Inv (provUnassign (podRunning Facts.good s r0.key.pod r0.key.ns r.uid).1 r.node ip).1 := hpr.quiet uq
-          have lg1 : UnassignsWithin s (provUnassign (podRunning Facts.good s r0.key.pod r0.key.ns r.uid).1 r.node ip).1
-              (NoLive s.pods) := by
-            apply lg0.trans
-            apply (provUnassign_log _ r.node ip).mono
-            intro j hj; subst hj
-            exact noLive_of_key h.safe hr (by rw [hk']; exact hnl)
-          split
-          · exact ⟨hu, pq.1.frame.trans uq.frame, lg1⟩
-          · have hnl2 : ¬ LiveKey (provUnassign (podRunning Facts.good s r0.key.pod r0.key.ns r.uid).1 r.node ip).1.pods r0.key := by
-              rw [uq.frame.pods]; exact hnl1
-            have c := reserve_then (provUnassign (podRunning Facts.good s r0.key.pod r0.key.ns r.uid).1 r.node ip).1 r0.key
-            have h3 := hu.step_of_chg_key _ hnl2 (reserve_coherent _ _ _ _ hu.coh) c
-            have hnl3 : ¬ LiveKey (reserve (provUnassign (podRunning Facts.good s r0.key.pod r0.key.ns r.uid).1 r.node ip).1
-                r0.key r0.key {}).1.pods r0.key := by rw [c.frame.pods]; exact hnl2
-            have t := tail _ h3 hnl3
-            exact ⟨t.1, ((pq.1.frame.trans uq.frame).trans c.frame).trans t.2.1,
-              lg1.trans (UnassignsWithin.of_plog_eq _ (t.2.2.trans (reserve_plog _ _ _ _)))⟩
-        · have t := tail _ hpr hnl1
-          exact ⟨t.1, pq.1.frame.trans t.2.1, lg0.trans (UnassignsWithin.of_plog_eq _ t.2.2)⟩
+        · exact ⟨hko, pq.1.frame.trans kq.1.frame, lg1⟩
+        · rename_i hown
+          have hnl : ¬ LiveKey s.pods r0.key :=
+            not_liveKey_of_checks s h r0.key ip r.uid (Or.inl ⟨r, hr, hk', rfl⟩) hrun hown
+          have fr := pq.1.frame.trans kq.1.frame
+          have a := resyncAct_spec _ ip r0.key r hko (by rw [fr.pods]; exact hnl)
+            (by rw [fr.pods]; exact noLive_of_key h.safe hr (by rw [hk']; exact hnl))
+          rw [fr.pods] at a
+          exact ⟨a.1, fr.trans a.2.1, lg1.trans a.2.2⟩
 
 theorem resyncLoop_spec (snap : Tbl IP Rec) : ∀ (order : List IP) (s : State), Inv s →
     Inv (resyncLoop Facts.good snap s order) ∧ Frame s (resyncLoop Facts.good snap s order) ∧
@@ -177,6 +282,29 @@ theorem releasePre_spec (s : State) (node : String) (ip : IP) (k : Key) (h : Inv
         lg1.trans (UnassignsWithin.of_plog_eq _ (reserve_plog _ _ _ _))⟩
   · exact ⟨h, Frame.refl s, UnassignsWithin.refl s _⟩
 
+theorem releaseAct_spec (s1 : State) (ip : IP) (k : Key) (uid : Nat) (node : String) (h1 : Inv s1)
+    (hnl : ¬ (keyOwnedByRunningPod Facts.good s1 k uid).2 = true → ¬ LiveKey s1.pods k) (hip : ¬ LiveKey s1.pods k → NoLive s1.pods ip) :
+    Inv (releaseAct Facts.good s1 ip k uid node).1 ∧ (releaseAct Facts.good s1 ip k uid node).1.pods = s1.pods ∧
+      UnassignsWithin s1 (releaseAct Facts.good s1 ip k uid node).1 (NoLive s1.pods) := by
+  unfold releaseAct
+  have kq := keyOwned_quiet Facts.good s1 k uid
+  have hko := h1.quiet kq.1
+  have lg1 : UnassignsWithin s1 (keyOwnedByRunningPod Facts.good s1 k uid).1 (NoLive s1.pods) := UnassignsWithin.of_plog_eq _ kq.2
+  split
+  · exact ⟨hko, kq.1.frame.pods, lg1⟩
+  · rename_i hown
+    have hn := hnl hown
+    have pre := releasePre_spec (keyOwnedByRunningPod Facts.good s1 k uid).1 node ip k hko
+      (by rw [kq.1.frame.pods]; exact hn) (by rw [kq.1.frame.pods]; exact hip hn)
+    rw [kq.1.frame.pods] at pre
+    split
+    · have c := (release_chg (releasePre (keyOwnedByRunningPod Facts.good s1 k uid).1 node ip k).1 k ip).mono
+        (fun _ x => x) isFree_uidZero
+      refine ⟨pre.1.step_of_chg_key _ (by rw [pre.2.1.pods, kq.1.frame.pods]; exact hn)
+        (release_coherent _ _ _ pre.1.coh) c, ((kq.1.frame.trans pre.2.1).trans c.frame).pods, ?_⟩
+      exact (lg1.trans pre.2.2).trans (UnassignsWithin.of_plog_eq _ (release_plog _ _ _))
+    · exact ⟨pre.1, (kq.1.frame.trans pre.2.1).pods, lg1.trans pre.2.2⟩
+
 theorem apiRelease_spec (s : State) (ip : IP) (k : Key) (h : Inv s) :
     Inv (apiRelease Facts.good s ip k).1 ∧ (apiRelease Facts.good s ip k).1.pods = s.pods ∧
       UnassignsWithin s (apiRelease Facts.good s ip k).1 (NoLive s.pods) := by
@@ -193,26 +321,13 @@ theorem apiRelease_spec (s : State) (ip : IP) (k : Key) (h : Inv s) :
     split
     · exact ⟨hpr, pq.1.frame.pods, lg0⟩
     · rename_i hrun
-      -- the address is stored under `k` (or is free and `k` is the empty key); no live bound pod has key `k`
-      have hnl : ¬ LiveKey s.pods k := by
-        rintro ⟨q, hq, hkq⟩
-        apply hrun
+      have hrec : (∃ r, Tbl.get s.alloc ip = some r ∧ r.key = k ∧ r.uid = ((Tbl.get s.alloc ip).map (·.uid)).getD 0) ∨
+          (Tbl.get s.alloc ip = none ∧ k = Key.empty) := by
         cases hg : Tbl.get s.alloc ip with
-        | none =>
-          rw [hg] at hkey'
-          simp at hkey'
-          have wf := (h.podsWF _ q hq.1).2.2.2
-          have := (keyOf_fields q wf).2
-          rw [hkq, ← hkey'] at this
-          exact absurd this.symm wf.2.1
-        | some r =>
-          rw [hg] at hkey'
-          simp at hkey'
-          have hu := h.safe.keyUids q hq ip r hg (by rw [hkey', hkq])
-          have := podRunning_live s q r.uid h hq.1 hq.2.1 hu
-          rw [hkq] at this
-          simpa [hg] using this
-      have hnlip : NoLive s.pods ip := by
+        | none => rw [hg] at hkey'; simp at hkey'; exact Or.inr ⟨rfl, hkey'.symm⟩
+        | some r => rw [hg] at hkey'; simp at hkey'; exact Or.inl ⟨r, rfl, hkey', by simp⟩
+      have hnlip : ¬ LiveKey s.pods k → NoLive s.pods ip := by
+        intro hnl
         cases hg : Tbl.get s.alloc ip with
         | none =>
           rintro ⟨q, hq, hm⟩
@@ -223,18 +338,12 @@ theorem apiRelease_spec (s : State) (ip : IP) (k : Key) (h : Inv s) :
         | some r =>
           rw [hg] at hkey'; simp at hkey'
           exact noLive_of_key h.safe hg (by rw [hkey']; exact hnl)
-      have pre := releasePre_spec (podRunning Facts.good s k.pod k.ns (((Tbl.get s.alloc ip).map (·.uid)).getD 0)).1
-        (((Tbl.get s.alloc ip).map (·.node)).getD "") ip k hpr (by rw [pq.1.frame.pods]; exact hnl)
-        (by rw [pq.1.frame.pods]; exact hnlip)
-      rw [pq.1.frame.pods] at pre
-      split
-      · have c := (release_chg (releasePre (podRunning Facts.good s k.pod k.ns
-            (((Tbl.get s.alloc ip).map (·.uid)).getD 0)).1 (((Tbl.get s.alloc ip).map (·.node)).getD "") ip k).1 k ip).mono
-          (fun _ x => x) isFree_uidZero
-        refine ⟨pre.1.step_of_chg_key _ (by rw [pre.2.1.pods, pq.1.frame.pods]; exact hnl)
-          (release_coherent _ _ _ pre.1.coh) c, ((pq.1.frame.trans pre.2.1).trans c.frame).pods, ?_⟩
-        exact (lg0.trans pre.2.2).trans (UnassignsWithin.of_plog_eq _ (release_plog _ _ _))
-      · exact ⟨pre.1, (pq.1.frame.trans pre.2.1).pods, lg0.trans pre.2.2⟩
+      have a := releaseAct_spec (podRunning Facts.good s k.pod k.ns (((Tbl.get s.alloc ip).map (·.uid)).getD 0)).1 ip k
+        (((Tbl.get s.alloc ip).map (·.uid)).getD 0) (((Tbl.get s.alloc ip).map (·.node)).getD "") hpr
+        (fun hown => by rw [pq.1.frame.pods]; exact not_liveKey_of_checks s h k ip _ hrec hrun hown)
+        (fun hn => by rw [pq.1.frame.pods] at hn ⊢; exact hnlip hn)
+      rw [pq.1.frame.pods] at a
+      exact ⟨a.1, a.2.1, lg0.trans a.2.2⟩
 
 theorem inv_apiRelease (s : State) (ip : IP) (k : Key) (f pf : Nat) (h : Inv s) :
     Inv (step Facts.good s (.apiRelease ip k f pf)).1 := (apiRelease_spec _ ip k (inv_withFaults s f pf h)).1
